@@ -3,7 +3,7 @@
 //@ replace: do_hash_file
 //@ pre-unwind: strlen.0:5
 //@ props: C18
-//@ expect: postcondition>=5 canary=4
+//@ expect: postcondition>=4 canary=4
 #include "_unit_cs.h"
 #include "_items.h"
 void harness(void)
@@ -14,7 +14,7 @@ void harness(void)
     xv_items_any(&x);
     __CPROVER_assume(XV_LIVE_OK(xv_mdctx_live));
     EVP_MD_CTX *ctx = EVP_MD_CTX_new();
-    __CPROVER_assume(xv_dg_len <= XV_DG_MAX - 2 * (XV_VAL - 1 + 40));
+    __CPROVER_assume(xv_dg_len <= XV_DG_MAX - 112);
     int rv = hash_item(&x.it[0], ctx, log_ref);
     if (x.it[0].type == item_type_none) XV_CANARY("unset item");
     if (x.it[0].type == item_type_value) XV_CANARY("by value");
